@@ -157,3 +157,63 @@ def tstep(ctx, rep):
                     else:
                         rep.proved("R-C61-tstep", where, "runs once per call of its method; the method is not called from a loop of the class")
     rep.floor("step-counter increments in optimizer classes", n, 4)
+
+
+def metric_state(ctx, rep):
+    """R-C61-mtstate — the stored metric tensor of the natural-gradient optimizers is g(x) + lam·I for the parameters it was computed at
+    (re-used as it is when recompute_tensor=False).  A store `self.metric_tensor = F(… self.metric_tensor …)` re-derives it from its
+    own previous value: the regularisation (or any other non-idempotent step in F) is then applied once per optimisation step, and
+    step k uses pinv(g + k·lam·I) instead of the documented pinv(g + lam·I)."""
+    ix = ctx.index
+    rep.rule("R-C61-mtstate", "in pennylane/optimize every store to self.metric_tensor has a value that does not read self.metric_tensor, neither "
+             "directly nor through locals bound to it on the straight-line code before the store (the stored tensor is computed from the "
+             "current arguments, never from its previous stored value)")
+    n = 0
+    for m in ix.modules.values():
+        if not m.relpath.startswith("pennylane/optimize/") or "metric_tensor" not in m.source:
+            continue
+        for f in ix.funcs_in(m):
+            if f.cls is None or f.name == "__init__":
+                continue
+            parents = {}
+            for p in ast.walk(f.node):
+                for fld in ("body", "orelse", "finalbody"):
+                    blk = getattr(p, fld, None)
+                    if isinstance(blk, list):
+                        for s_ in blk:
+                            parents[id(s_)] = (p, blk)
+
+            def reads_state(e, st, depth=0):
+                if "self.metric_tensor" in norm(e):
+                    return True
+                if depth > 4:
+                    return False
+                for nm in {x.id for x in ast.walk(e) if isinstance(x, ast.Name)}:
+                    cur = st
+                    while id(cur) in parents:
+                        par, blk = parents[id(cur)]
+                        before = blk[: blk.index(cur)]
+                        d = next((b for b in reversed(before) if isinstance(b, ast.Assign) and any(isinstance(t, ast.Name) and t.id == nm for t in b.targets)), None)
+                        if d is not None:
+                            if reads_state(d.value, d, depth + 1):
+                                return True
+                            break
+                        if any(isinstance(x, ast.Name) and x.id == nm and isinstance(x.ctx, ast.Store) for b in before for x in ast.walk(b)):
+                            break  # bound in a nested construct before: not decided
+                        cur = par
+                        if isinstance(cur, (ast.FunctionDef, ast.AsyncFunctionDef)):
+                            break
+                return False
+            for st in ast.walk(f.node):
+                if isinstance(st, ast.Assign) and any(isinstance(t, ast.Attribute) and t.attr == "metric_tensor" and isinstance(t.value, ast.Name)
+                                                      and t.value.id == "self" for t in st.targets):
+                    n += 1
+                    where = f"{m.relpath}:{f.qualname} `{norm(st)[:60]}`"
+                    if reads_state(st.value, st):
+                        rep.refuted("R-C61-mtstate", m.relpath, f.qualname, st,
+                                    "the stored metric tensor is re-derived from its own previous stored value: with recompute_tensor=False (the tensor is "
+                                    "re-used) the reshaping / lam·I regularisation is applied again on every step, so step k uses pinv(g + k·lam·I) instead "
+                                    "of the documented pinv(g + lam·I)")
+                    else:
+                        rep.proved("R-C61-mtstate", where, "computed from the current arguments only")
+    rep.floor("stores to self.metric_tensor in pennylane/optimize", n, 2)
